@@ -41,8 +41,8 @@ EXTENDS CfgOps, TLC, Json, IOUtils
 
 Traces == ndJsonDeserialize(IOEnv.TRACE_FILE)
 
-VARIABLES tid, l, mi, ma, nodes, nodesA, pLay, pEd, ins, verdict, known, drift, done
-vars == <<tid, l, mi, ma, nodes, nodesA, pLay, pEd, ins, verdict, known, drift, done>>
+VARIABLES tid, l, mi, ma, nodes, nodesA, pLay, pEd, ins, gone, verdict, known, drift, done
+vars == <<tid, l, mi, ma, nodes, nodesA, pLay, pEd, ins, gone, verdict, known, drift, done>>
 
 T == Traces[tid]
 
@@ -58,8 +58,13 @@ AsIs == {"SplitSelfLoop", "HistCopySlice", "EmptyOldEdge", "AnonSplitEdge", "Fir
 (* the clauses a deviation can make fail                                     *)
 Explains(F) == CASE F = "SplitSelfLoop" -> {"FallThrough"}
                  [] F \in {"HistCopySlice", "EmptyOldEdge", "AnonSplitEdge"} -> {"Raised"}
-                 [] F = "CutPathSwallow" -> {"Covers", "Disjoint"}
+                 [] F \in {"CutPathSwallow", "FirstBlockSwallow"} -> {"Covers", "Disjoint"}
                  [] OTHER -> {}
+(* The two Swallow deviations act with a delay: a node dropped from the      *)
+(* support stays a vertex, the partition breaks when it is re-inserted later *)
+(* (by add_edge or add_vertex). `gone` remembers which of them has changed   *)
+(* the state earlier in the trace.                                           *)
+Swallows == {"CutPathSwallow", "FirstBlockSwallow"}
 
 ToSet(s) == {s[i] : i \in 1..Len(s)}
 RECURSIVE Flat(_)
@@ -118,7 +123,8 @@ IsDrift(c) == c \in {"drift:SliceOffBoundary", "drift:CutOffBoundary", "drift:Bl
 
 SweepClause(t) ==
   LET n == Len(t.seq) IN
-  IF n = 0 THEN (IF t.blocks = <<>> /\ t.gb.ok = 0 THEN "" ELSE "BlocksAreMaximalRuns")
+  IF t.exc # "" THEN "Raised"
+  ELSE IF n = 0 THEN (IF t.blocks = <<>> /\ t.gb.ok = 0 THEN "" ELSE "BlocksAreMaximalRuns")
   ELSE
     LET Sm == StreamOf(t.seq)
         B  == BlocksFrom(Sm.f, 1)
@@ -144,7 +150,7 @@ SweepClause(t) ==
 Init == /\ tid \in 1..Len(Traces)
         /\ l = 1
         /\ mi = EmptyG /\ ma = EmptyG /\ nodes = <<>> /\ nodesA = <<>>
-        /\ pLay = <<>> /\ pEd = {} /\ ins = {}
+        /\ pLay = <<>> /\ pEd = {} /\ ins = {} /\ gone = {}
         /\ verdict = "ok" /\ known = {} /\ drift = {} /\ done = FALSE
 
 Bad(clause) == IF verdict = "ok" THEN ToJson([line |-> l, clause |-> clause]) ELSE verdict
@@ -155,7 +161,7 @@ SweepStep ==
      /\ verdict' = IF c = "" \/ IsDrift(c) THEN verdict ELSE Bad(c)
      /\ drift' = IF IsDrift(c) THEN drift \cup {c} ELSE drift
   /\ l' = 2
-  /\ UNCHANGED <<tid, mi, ma, nodes, nodesA, pLay, pEd, ins, known, done>>
+  /\ UNCHANGED <<tid, mi, ma, nodes, nodesA, pLay, pEd, ins, gone, known, done>>
 
 (* index of the instruction of stream S that starts at address a, 0 if none  *)
 IdxOf(Sm, a) == IF \E k \in 1..NI(Sm) : Sm.a[k] = a THEN CHOOSE k \in 1..NI(Sm) : Sm.a[k] = a ELSE 0
@@ -202,12 +208,14 @@ GraphStep ==
                    ELSE IF si # 0 /\ ~FallThroughE(pEd, ed, pLay[si][1], a0) THEN "FallThrough"
                    ELSE ""
          asis   == obs = ProjM(ma2)
-         fired  == {F \in Fired(ma, nodesA, e) : clause \in Explains(F)}
+         sw     == {F \in Swallows : ProjM(StepM(ma, nodesA, e, AsIs \ {F})) # ProjM(ma2)}
+         fired  == {F \in Fired(ma, nodesA, e) \cup gone : clause \in Explains(F)}
      IN
      /\ mi' = mi2 /\ ma' = ma2
      /\ nodes' = IF isadd THEN Append(nodes, Len(mi.blk) + 1) ELSE nodes
      /\ nodesA' = IF isadd THEN Append(nodesA, Len(ma.blk) + 1) ELSE nodesA
      /\ ins' = ins2 /\ pLay' = lay /\ pEd' = ed
+     /\ gone' = gone \cup sw
      /\ IF ~dom \/ clause = "" THEN
           /\ UNCHANGED <<verdict, known>>
           /\ IF e.exc # "" THEN Halt ELSE l' = l + 1
@@ -228,7 +236,7 @@ Finish ==
      \/ T.kind = "graph" /\ l > Len(T.steps)
   /\ done' = TRUE
   /\ PrintT(ToJson([t |-> T.t, verdict |-> verdict, known |-> known, drift |-> drift]))
-  /\ UNCHANGED <<tid, l, mi, ma, nodes, nodesA, pLay, pEd, ins, verdict, known, drift>>
+  /\ UNCHANGED <<tid, l, mi, ma, nodes, nodesA, pLay, pEd, ins, gone, verdict, known, drift>>
 
 Next == SweepStep \/ GraphStep \/ Finish
 Spec == Init /\ [][Next]_vars
